@@ -444,6 +444,7 @@ type AuthProxyBind struct {
 // Frontend ...
 type Frontend struct {
 	changed     bool
+	bindsOld    []AuthProxyBind
 	Maps        *FrontendMaps
 	Name        string
 	BindName    string
